@@ -112,6 +112,9 @@ def values_path(max_digits):
         ident = None
         # another block decoded first in the same process (a decoder must not carry fields from one message to the next)
         before = b"1-0:31.7.0(001*A)\r\n1-0:1.8.0(000123.456*kWh)\r\n1-0:2.8.0(000000.001*kWh)\r\n0-0:96.13.0(text)\r\n"
+        # ... and the very addresses of this block sent with another kind of unit (the conversion follows the unit transmitted now,
+        # not what an address carried earlier in the process)
+        before += (f"{addr}(00001*W)\r\n{vaddr}(0.001*kWh)\r\n0-0:96.1.0(1.5*kW)\r\n{clock_addr}(230.1*V)\r\n").encode()
         w = {"content": SBytes(content), "before": SBytes(list(before))}
         ctx.intend(w)
         if ident:
